@@ -665,18 +665,18 @@ def bUnresLoop : M Int := do
   if (← rec .simpleId) < 0 then return 1
   rec .unresLoop
 
-/-- `dd_unresolved_name` -/
-def bUnresolvedName : M Int := do
-  let mut c0 ← curr
-  let mut c1 ← peek 1
-  if (← eof) then return -1
-  if c0 == ch%'g' && c1 == ch%'s' then
-    let _ ← consumeN 2
-    c0 ← curr
-    c1 ← peek 1
+/-- dd_unresolved_name, the tail of the "sr" case (after the optional `N <type>`):
+    the `while` over dd_simple_id, the closing 'E' and the base name -/
+def bUnresSrTail : M Int := do
+  if (← rec .unresLoop) != 0 then return 0
+  if !(← debugConsume ch%'E') then return -1
+  rec .baseUnresolvedName
+
+/-- dd_unresolved_name after the optional "gs" (c0, c1 = the two current chars) -/
+def bUnresAfterGs (c0 c1 : UInt8) : M Int := do
   if c0 == ch%'s' && c1 == ch%'r' then
     let _ ← consumeN 2
-    c0 ← curr
+    let c0 ← curr
     if c0 == ch%'T' || c0 == ch%'D' || c0 == ch%'S' then
       if (← rec .type) < 0 then return -1
       if (← rec .baseUnresolvedName) < 0 then return -1
@@ -686,9 +686,21 @@ def bUnresolvedName : M Int := do
     if c0 == ch%'N' then
       let _ ← consume
       if (← rec .type) < 0 then return -1
-    if (← rec .unresLoop) != 0 then return 0
-    if !(← debugConsume ch%'E') then return -1
-  rec .baseUnresolvedName
+      bUnresSrTail rec
+    else bUnresSrTail rec
+  else rec .baseUnresolvedName
+
+/-- `dd_unresolved_name` -/
+def bUnresolvedName : M Int := do
+  let c0 ← curr
+  let c1 ← peek 1
+  if (← eof) then return -1
+  if c0 == ch%'g' && c1 == ch%'s' then
+    let _ ← consumeN 2
+    let c0 ← curr
+    let c1 ← peek 1
+    bUnresAfterGs rec c0 c1
+  else bUnresAfterGs rec c0 c1
 
 /-- `dd_expr_primary` -/
 def bExprPrimary : M Int := do
@@ -738,32 +750,40 @@ def findUnary (exp : Nat) : List (List UInt8) → M (Option Nat)
     if (← matchAt u exp) then return some u.length
     findUnary exp us
 
-/-- `dd_expression` -/
-def bExpression : M Int := do
-  let mut c0 ← peek 0
-  let mut c1 ← peek 1
-  let exp := (← getSt).pos
-  if (← eof) then return -1
-  if c0 == ch%'g' && c1 == ch%'s' then
-    let _ ← consumeN 2
-    c0 ← curr
-    c1 ← peek 1
-  if c0 == ch%'L' then return (← rec .exprPrimary)
-  match (← findUnary exp unaryOps) with
-  | some k =>
-    let _ ← consumeN k
-    return (← rec .expression)
-  | none => pure ()
-  if c0 == ch%'q' && c1 == ch%'u' then
+/-- dd_expression, third part of the chain of `if`s -/
+def bExprC (c0 c1 : UInt8) : M Int := do
+  if c0 == ch%'T' && (c1 == ch%'_' || isDigit c1) then
+    return (← templateParam)
+  if c0 == ch%'f' && (c1 == ch%'p' || c1 == ch%'L') then
+    return (← functionParam)
+  if (c0 == ch%'d' || c0 == ch%'p') && c1 == ch%'t' then
     let _ ← consumeN 2
     if (← rec .expression) < 0 then return -1
-    if (← rec .expression) < 0 then return -1
-    return (← rec .expression)
-  -- binary operators: first entry of ops[] with that code, unless c0 == 'c' or c1 == 'v'
-  if (ops.any fun o => o.1 == c0 && o.2.1 == c1) && !(c0 == ch%'c' || c1 == ch%'v') then
+    return (← rec .unresolvedName)
+  if c0 == ch%'d' && c1 == ch%'s' then
     let _ ← consumeN 2
     if (← rec .expression) < 0 then return -1
     return (← rec .expression)
+  if c0 == ch%'s' && c1 == ch%'Z' then
+    let _ ← consumeN 2
+    let c0 ← curr
+    if c0 == ch%'T' then return (← templateParam)
+    if c0 == ch%'f' then return (← functionParam)
+    return -1
+  if c0 == ch%'s' && c1 == ch%'P' then
+    let _ ← consumeN 2
+    incLevel
+    if (← rec .argLoop) < 0 then return -1
+    if !(← debugConsume ch%'E') then return -1
+    decLevel
+    return 0
+  if c0 == ch%'t' && c1 == ch%'r' then
+    let _ ← consumeN 2
+    return 0
+  rec .unresolvedName
+
+/-- dd_expression, second part of the chain of `if`s -/
+def bExprB (c0 c1 : UInt8) : M Int := do
   if c0 == ch%'c' && c1 == ch%'l' then
     let _ ← consumeN 2
     return (← rec .exprList)
@@ -795,35 +815,41 @@ def bExpression : M Int := do
   if (c0 == ch%'t' && c1 == ch%'i') || ((c0 == ch%'s' || c0 == ch%'a') && c1 == ch%'t') then
     let _ ← consumeN 2
     return (← rec .type)
-  if c0 == ch%'T' && (c1 == ch%'_' || isDigit c1) then
-    return (← templateParam)
-  if c0 == ch%'f' && (c1 == ch%'p' || c1 == ch%'L') then
-    return (← functionParam)
-  if (c0 == ch%'d' || c0 == ch%'p') && c1 == ch%'t' then
+  bExprC rec c0 c1
+
+/-- dd_expression after the optional "gs": `exp` = position at function entry,
+    c0, c1 = the two current chars -/
+def bExprA (exp : Nat) (c0 c1 : UInt8) : M Int := do
+  if c0 == ch%'L' then return (← rec .exprPrimary)
+  match (← findUnary exp unaryOps) with
+  | some k =>
+    let _ ← consumeN k
+    return (← rec .expression)
+  | none => pure ()
+  if c0 == ch%'q' && c1 == ch%'u' then
     let _ ← consumeN 2
     if (← rec .expression) < 0 then return -1
-    return (← rec .unresolvedName)
-  if c0 == ch%'d' && c1 == ch%'s' then
+    if (← rec .expression) < 0 then return -1
+    return (← rec .expression)
+  -- binary operators: first entry of ops[] with that code, unless c0 == 'c' or c1 == 'v'
+  if (ops.any fun o => o.1 == c0 && o.2.1 == c1) && !(c0 == ch%'c' || c1 == ch%'v') then
     let _ ← consumeN 2
     if (← rec .expression) < 0 then return -1
     return (← rec .expression)
-  if c0 == ch%'s' && c1 == ch%'Z' then
+  bExprB rec c0 c1
+
+/-- `dd_expression` -/
+def bExpression : M Int := do
+  let c0 ← peek 0
+  let c1 ← peek 1
+  let exp := (← getSt).pos
+  if (← eof) then return -1
+  if c0 == ch%'g' && c1 == ch%'s' then
     let _ ← consumeN 2
-    c0 ← curr
-    if c0 == ch%'T' then return (← templateParam)
-    if c0 == ch%'f' then return (← functionParam)
-    return -1
-  if c0 == ch%'s' && c1 == ch%'P' then
-    let _ ← consumeN 2
-    incLevel
-    if (← rec .argLoop) < 0 then return -1
-    if !(← debugConsume ch%'E') then return -1
-    decLevel
-    return 0
-  if c0 == ch%'t' && c1 == ch%'r' then
-    let _ ← consumeN 2
-    return 0
-  rec .unresolvedName
+    let c0 ← curr
+    let c1 ← peek 1
+    bExprA rec exp c0 c1
+  else bExprA rec exp c0 c1
 
 /-- the `while (c != 'E')` loop of dd_function_type; the result is the final `c` -/
 def bFtLoop (c : UInt8) : M Int := do
@@ -904,12 +930,59 @@ def bVectorType : M Int := do
   decType
   return 0
 
+/-- dd_type, `c == 'T'` -/
+def bTypeT (ret : Int) : M Int := do
+  let c ← peek 1
+  if strchrB scue c then
+    let _ ← consumeN 2
+    rec .name
+  else if c == ch%'_' || isDigit c then
+    let r ← templateParam
+    if (← curr) == ch%'I' then rec .templateArgs else return r
+  else return ret
+
+/-- dd_type, `c == 'D'` -/
+def bTypeD (ret : Int) : M Int := do
+  let fx ← getFixes
+  let c ← peek 1
+  -- F10c: `strchr(D_types, c)` is true for c == '\0'
+  if (if fx.dTypeNul then c != 0 && dTypes.contains c else strchrB dTypes c) then
+    let _ ← consumeN 2
+    return 0
+  else if c == ch%'p' then
+    let _ ← consumeN 2
+    rec (.typeLoop ret)
+  else if c == ch%'v' then
+    let _ ← rec .vectorType
+    rec (.typeLoop ret)
+  else if c == ch%'t' || c == ch%'T' then rec .decltype
+  else return ret
+
+/-- dd_type, `c == 'S'` -/
+def bTypeS : M Int := do
+  let c ← peek 1
+  let mut r ← substitution
+  if r == 0 && c == ch%'t' && isDigit (← curr) then
+    r ← rec .unqualifiedName
+  if (← curr) == ch%'I' then
+    r ← rec .templateArgs
+  return r
+
+/-- dd_type, `c == 'U'` -/
+def bTypeU : M Int := do
+  let _ ← consume
+  let mut r ← sourceName
+  if r < 0 then return r
+  if r == 0 && (← curr) == ch%'I' then
+    r ← rec .templateArgs
+  if r < 0 then return r
+  rec (.typeLoop r)
+
 /-- one iteration of the `while (!done && !dd_eof(dd))` loop of dd_type; `ret` is the
     loop-carried variable, the result is the final `ret` -/
 def bTypeLoop (ret : Int) : M Int := do
   if (← eof) then return ret
   let c ← curr
-  let fx ← getFixes
   if strchrB cvQual c then
     let _ ← qualifier
     rec (.typeLoop ret)
@@ -918,50 +991,15 @@ def bTypeLoop (ret : Int) : M Int := do
     rec (.typeLoop ret)
   else if c == ch%'F' then
     rec .functionType
-  else if c == ch%'T' then
-    let c ← peek 1
-    if strchrB scue c then
-      let _ ← consumeN 2
-      rec .name
-    else if c == ch%'_' || isDigit c then
-      let r ← templateParam
-      if (← curr) == ch%'I' then rec .templateArgs else return r
-    else return ret
+  else if c == ch%'T' then bTypeT rec ret
   else if c == ch%'A' then rec .arrayType
   else if c == ch%'M' then rec .ptrToMember
-  else if c == ch%'D' then
-    let c ← peek 1
-    -- F10c: `strchr(D_types, c)` is true for c == '\0'
-    if (if fx.dTypeNul then c != 0 && dTypes.contains c else strchrB dTypes c) then
-      let _ ← consumeN 2
-      return 0
-    else if c == ch%'p' then
-      let _ ← consumeN 2
-      rec (.typeLoop ret)
-    else if c == ch%'v' then
-      let _ ← rec .vectorType
-      rec (.typeLoop ret)
-    else if c == ch%'t' || c == ch%'T' then rec .decltype
-    else return ret
-  else if c == ch%'S' then
-    let c ← peek 1
-    let mut r ← substitution
-    if r == 0 && c == ch%'t' && isDigit (← curr) then
-      r ← rec .unqualifiedName
-    if (← curr) == ch%'I' then
-      r ← rec .templateArgs
-    return r
+  else if c == ch%'D' then bTypeD rec ret
+  else if c == ch%'S' then bTypeS rec
   else if c == ch%'u' then
     let _ ← consume
     sourceName
-  else if c == ch%'U' then
-    let _ ← consume
-    let mut r ← sourceName
-    if r < 0 then return r
-    if r == 0 && (← curr) == ch%'I' then
-      r ← rec .templateArgs
-    if r < 0 then return r
-    rec (.typeLoop r)
+  else if c == ch%'U' then bTypeU rec
   else if c == ch%'I' then rec .templateArgs
   else if isDigit c || c == ch%'N' || c == ch%'Z' then rec .name
   else
@@ -980,76 +1018,87 @@ def bType : M Int := do
   decType
   return ret
 
+/-- dd_special_name, `c0 == 'T'` (falls through to the `c0 == 'G'` test, which fails) -/
+def bSpecialT (c1 : UInt8) : M Int := do
+  let fx ← getFixes
+  -- F10b: `strchr(T_type, c1)` is true for c1 == '\0' and the index is 6
+  if (if fx.tTypeNul then c1 != 0 && tType.contains c1 else strchrB tType c1) then
+    let _ ← consumeN 2
+    modifySt fun st => { st with typeInfo := true }
+    let idx := (tType.findIdx? (· == c1)).getD tType.length
+    match tTypeName[idx]? with
+    | none => crash .tableOob
+    | some nm =>
+      appendBytes [95, 95]
+      appendBytes nm
+      appendBytes [95, 95]
+      return (← rec .type)
+  if c1 == ch%'h' || c1 == ch%'v' then
+    let _ ← consume
+    if (← callOffset) < 0 then return -1
+    return (← rec .encoding)
+  if c1 == ch%'c' then
+    let _ ← consumeN 2
+    if (← callOffset) < 0 then return -1
+    if (← callOffset) < 0 then return -1
+    return (← rec .encoding)
+  if c1 == ch%'C' then
+    let _ ← consumeN 2
+    appendBytes bs%"__construction_vtable__"
+    modifySt fun st => { st with typeInfo := true }
+    if (← rec .type) < 0 then return -1
+    if (← number) < 0 then return -1
+    if (← eof) then return 0
+    if !(← debugConsume ch%'_') then return -1
+    modifySt fun st => { st with typeInfo := false }
+    return (← rec .type)
+  if c1 == ch%'H' || c1 == ch%'W' then
+    let _ ← consumeN 2
+    appendSeparator colon2
+    appendBytes bs%"TLS_"
+    appendBytes (if c1 == ch%'H' then bs%"init" else bs%"wrap")
+    return (← rec .name)
+  ddDebug 0
+  return -1
+
+/-- dd_special_name, `c0 == 'G'` -/
+def bSpecialG (c1 : UInt8) : M Int := do
+  if c1 == ch%'V' then
+    let _ ← consumeN 2
+    appendBytes bs%"__guard_variable__"
+    return (← rec .name)
+  if c1 == ch%'R' then
+    let _ ← consumeN 2
+    appendBytes bs%"__ref_temp__"
+    modifySt fun st => { st with ignoreDisc := true }
+    if (← rec .name) < 0 then return -1
+    if (← curr) != ch%'_' then
+      let _ ← seqId
+    if !(← debugConsume ch%'_') then return -1
+    return 0
+  if c1 == ch%'A' then
+    let _ ← consumeN 2
+    return (← rec .encoding)
+  if c1 == ch%'T' then
+    let _ ← consumeN 2
+    let c0 ← curr
+    if c0 == ch%'t' || c0 == ch%'n' then
+      let _ ← consume
+      return (← rec .encoding)
+    return -1
+  ddDebug 0
+  return -1
+
 /-- `dd_special_name` -/
 def bSpecialName : M Int := do
   let c0 ← curr
   let c1 ← peek 1
-  let fx ← getFixes
   if (← eof) then return -1
-  if c0 == ch%'T' then
-    -- F10b: `strchr(T_type, c1)` is true for c1 == '\0' and the index is 6
-    if (if fx.tTypeNul then c1 != 0 && tType.contains c1 else strchrB tType c1) then
-      let _ ← consumeN 2
-      modifySt fun st => { st with typeInfo := true }
-      let idx := (tType.findIdx? (· == c1)).getD tType.length
-      match tTypeName[idx]? with
-      | none => crash .tableOob
-      | some nm =>
-        appendBytes [95, 95]
-        appendBytes nm
-        appendBytes [95, 95]
-        return (← rec .type)
-    if c1 == ch%'h' || c1 == ch%'v' then
-      let _ ← consume
-      if (← callOffset) < 0 then return -1
-      return (← rec .encoding)
-    if c1 == ch%'c' then
-      let _ ← consumeN 2
-      if (← callOffset) < 0 then return -1
-      if (← callOffset) < 0 then return -1
-      return (← rec .encoding)
-    if c1 == ch%'C' then
-      let _ ← consumeN 2
-      appendBytes bs%"__construction_vtable__"
-      modifySt fun st => { st with typeInfo := true }
-      if (← rec .type) < 0 then return -1
-      if (← number) < 0 then return -1
-      if (← eof) then return 0
-      if !(← debugConsume ch%'_') then return -1
-      modifySt fun st => { st with typeInfo := false }
-      return (← rec .type)
-    if c1 == ch%'H' || c1 == ch%'W' then
-      let _ ← consumeN 2
-      appendSeparator colon2
-      appendBytes bs%"TLS_"
-      appendBytes (if c1 == ch%'H' then bs%"init" else bs%"wrap")
-      return (← rec .name)
-  if c0 == ch%'G' then
-    if c1 == ch%'V' then
-      let _ ← consumeN 2
-      appendBytes bs%"__guard_variable__"
-      return (← rec .name)
-    if c1 == ch%'R' then
-      let _ ← consumeN 2
-      appendBytes bs%"__ref_temp__"
-      modifySt fun st => { st with ignoreDisc := true }
-      if (← rec .name) < 0 then return -1
-      if (← curr) != ch%'_' then
-        let _ ← seqId
-      if !(← debugConsume ch%'_') then return -1
-      return 0
-    if c1 == ch%'A' then
-      let _ ← consumeN 2
-      return (← rec .encoding)
-    if c1 == ch%'T' then
-      let _ ← consumeN 2
-      let c0 ← curr
-      if c0 == ch%'t' || c0 == ch%'n' then
-        let _ ← consume
-        return (← rec .encoding)
-      return -1
-  ddDebug 0
-  return -1
+  if c0 == ch%'T' then bSpecialT rec c1
+  else if c0 == ch%'G' then bSpecialG rec c1
+  else
+    ddDebug 0
+    return -1
 
 /-- `strrchr(new, ':')`: the part of the output after the last ':' -/
 def lastComponent (o : List UInt8) : List UInt8 :=
